@@ -740,15 +740,7 @@ mod sd {
 fn main() {
     let a = Args::parse();
     util::silence_panics();
-    #[cfg(feature = "ledger")]
-    {
-        use vharness::ledger::{set_parity, Parity};
-        match a.str("parity", "mixed").as_str() {
-            "even" => set_parity(Parity::Even),
-            "odd" => set_parity(Parity::Odd),
-            _ => set_parity(Parity::Mixed),
-        }
-    }
+    util::apply_parity(&a);
     let mut o = Obs::new();
     vharness::out::journal(&format!("tbl:{}:{}", a.mode, a.usize("shard", 0)));
     match a.mode.as_str() {
